@@ -38,7 +38,11 @@ def run_decoders(res, own_result=False):
     pr = vlib.coq_check_props("Props/C11_decoders.v", runners=["Run/CodecRun.v"])
     res.add_proof(pr, CHECKER)
     cov = res.cov.setdefault("decoders", {})
-    cov["translator"] = {"Codec/gen/TagsGen.v": tr["files"].get("Codec/gen/TagsGen.v", {}), "alloc_shapes": cc.alloc_shapes()}
+    DGEN = ["Codec/gen/TagsGen.v", "Codec/gen/MethodsGen.v", "Codec/gen/RecordsGen.v"]
+    unrec = cc.unrecognised(tr, DGEN)
+    cov["translator"] = {g: tr["files"].get(g, {}) for g in DGEN}
+    cov["translator"]["alloc_shapes"] = cc.alloc_shapes()
+    cov["unrecognised_shapes"] = unrec
     exe, err = vlib.build_harness("codec")
     if exe is None:
         raise vlib.Infra("harness does not build against /repo (is the tree compilable?):\n" + err)
@@ -140,6 +144,9 @@ def run_decoders(res, own_result=False):
                           True, "%s decoder on %s: %s, %d bytes allocated" % (found.kind, found.hex, found.cls, found.alloc))
         else:
             res.violation(dict(kind="obligation", broken=what, translator=cov["translator"]), False, "; ".join(what))
+    if unrec and not res.violations:
+        problems.append("unrecognised source shapes: %s" % json.dumps(unrec)[:600])
+        cc.report_unrecognised(res, unrec, "mutated decoder inputs under recover() with allocation measured, corpus witnesses, forged-length probes: no failing input")
     return problems
 
 
